@@ -43,6 +43,8 @@ class C17(HistoryProperty):
 
     def gen_case(self, rng, tier):
         cfg = gen.swarm_cfg(rng, off=("shape_change", "nocache"), on=("coalesce", "fapp"))
+        cfg["tuple_constants"] = rng.random() < 0.4  # tuple constants with a mutable member ...
+        cfg["mutating_bodies"] = cfg["tuple_constants"]  # ... on which bodies work in place: a RE-computation must see a fresh copy
         spec = gen.prune(gen.gen_spec(rng, cfg))
         if rng.random() < 0.35:
             # a coalesce whose first member is a cached dataset that CANNOT be evaluated under any generated dictionary
